@@ -13,6 +13,7 @@ LOCK=/var/tmp/verif-repo.lock
 mkdir -p "$OUT" "$SCR"
 if [ -f /tmp/seed-$ID/OUT/patch.diff ]; then cp /tmp/seed-$ID/OUT/patch.diff /tmp/seed-$ID/OUT/meta.json "$OUT"/ 2>/dev/null; fi
 PATCH="$OUT/patch.diff"
+[ -f "$OUT/patch-rebased.diff" ] && PATCH="$OUT/patch-rebased.diff"   # the same change on a later /repo head
 (
   flock -x 9
   cd /repo || exit 2
